@@ -343,6 +343,11 @@ def run_scenario(sc):
             rec["faulted"] = 1 if s.fault_fired else 0
             rec["peer_gone"] = 1 if s.peer_gone else 0
             rec["tstate"] = {"sessions": sorted(list(x) for x in s.target.sessions), "conns": sorted(list(c_) for c_ in s.target.conns)}
+            if rec["outcome"] == "hang":
+                # the call never returned: its verdict does not depend on the (possibly millions of) frames it produced, so
+                # only the first ones are kept for the record
+                k = max(i for i, e in enumerate(s.events) if e["k"] == "call")
+                del s.events[k + 1 + 400:]
             s.ev(rec)
             if rec["outcome"] == "hang":
                 break
